@@ -41,7 +41,7 @@ theorem write_event_not_ahead_of_state (acl : Acl) (s : Store) (mk : Nat → Lis
     (h : (s.addOp acl mk).2 = .ok e) :
     (s.addOp acl mk).1.idx = updateIndex s.kind s.idx (s.addOp acl mk).1.log ∧
     has (s.addOp acl mk).1.log.entries e.hash = true := by
-  unfold Store.addOp at h ⊢
+  unfold Store.addOp Store.addOp0 at h ⊢
   unfold append at h ⊢
   by_cases hc : acl.canAppend (mk (appendTime s.log) (appendNext s.log)) = true
   · simp only [hc, if_true] at h ⊢
